@@ -11,12 +11,15 @@ use super::NativeFunctionMetaData;
 fn lookup(mem: &mut Memory, key: GcRef, environment: GcRef, environment_module: &str) -> Result<GcRef, ModulError> {
     let mut cursor = environment;
 
-    while let Some(c) = cursor.get() {
-        let cons = c.as_conscell();
-        let key_value = cons.get_car();
-
-        if key_value.get().unwrap().as_conscell().get_car().get().unwrap().as_symbol() == key.get().unwrap().as_symbol() {
-            return Ok(key_value.get().unwrap().as_conscell().get_cdr());
+    // environments can be made by hand (make-function, call-native-function):
+    // anything that is not a (symbol . value) pair binds nothing, and the list ends at the first non-cons
+    while let Some(PrimitiveValue::Cons(cons)) = cursor.get() {
+        if let Some(PrimitiveValue::Cons(key_value)) = cons.get_car().get() {
+            if let Some(PrimitiveValue::Symbol(symbol)) = key_value.get_car().get() {
+                if symbol == key.get().unwrap().as_symbol() {
+                    return Ok(key_value.get_cdr());
+                }
+            }
         }
 
         cursor = cons.get_cdr();
